@@ -1799,7 +1799,9 @@ impl LineBuf {
 	) -> usize {
 		// Not sorry for these method names btw
 		let mut pos = ClampedUsize::new(self.cursor.get(), self.cursor.max, false);
-		for i in 0..count {
+		// (a count far beyond the number of words in the text: the last steps are what matters, the ones that cannot move are skipped)
+		let skip = count.saturating_sub(self.cursor.max.saturating_add(2));
+		for i in skip..count {
 			// We alter 'include_last_char' to only be true on the last iteration
 			// Therefore, '5cw' will find the correct range for the first four and stop on the end of the fifth word
 			let include_last_char_and_is_last_word = include_last_char && i == count.saturating_sub(1);
@@ -3565,7 +3567,6 @@ impl LineBuf {
 						}
 					}
 					_ => {
-						// A count puts that many copies
 						let content = match content {
 							RegisterContent::Span(text) => RegisterContent::Span(text.repeat(self.verb_count.max(1))),
 							RegisterContent::Line(text) => RegisterContent::Line(text.repeat(self.verb_count.max(1))),
